@@ -98,7 +98,7 @@ pub fn key_of(d: &FnDesc, recv: Option<&ArgVal>, args: &[ArgVal]) -> String {
 /// The value the undecorated twin returns for these arguments at `version`.
 pub fn twin_value(d: &FnDesc, recv: Option<&ArgVal>, args: &[ArgVal], version: u32) -> String {
     let enc = vrt::enc_argvals(if d.receiver != Receiver::None { recv } else { None }, args, d.args);
-    vrt::twin_value_enc(d.id, version, &enc, d.mem_pad)
+    vrt::twin_value_enc(d.id, version, &enc, d.pad)
 }
 
 #[cfg(test)]
